@@ -82,7 +82,7 @@ REQUIRED = dict(
              'contrib:AbsorptionContribution', 'contrib:CIAContribution', 'contrib:RayleighContribution',
              'contrib:SimpleCloudsContribution', 'contrib:FlatMieContribution', 'contrib:LeeMieContribution',
              'contrib:HydrogenIon', 'history:parameters-changed', 'opacity:files', 'opacity:memory',
-             'contribution-order-changed-by-reload', 'models:free-draw'] + ['stratum:' + k for k in L.KNOWN_BAD])
+             'contribution-order-changed-by-reload', 'models:free-draw', 'same-binner:result-arrays-refilled-in-place'] + ['stratum:' + k for k in L.KNOWN_BAD])
 
 _log = {'writes': [], 'opens': [], 'builtin_opens': [], 'on': False}
 _hook_installed = [False]
@@ -632,6 +632,12 @@ def wl_synth_spectra(ctx, rng):
             if not np.all(np.diff(wn2) > 0):
                 continue
         r2 = (wn2, 10 ** rng.uniform(-6, -1, len(wn2)), np.exp(-10 ** rng.uniform(-3, 2, (nl, len(wn2)))), None)
+        if len(wn2) == n and rng.random() < 0.5:
+            # the producer's OWN arrays, refilled in place with the next result (a model that keeps and refills its
+            # output buffers): the same objects, other content
+            wn[...], flux[...], tau[...] = r2[0], r2[1], r2[2]
+            r2 = result
+            ctx.observe('same-binner:result-arrays-refilled-in-place')
         store_and_judge_spectrum(ctx, rng, r2, 'synthetic-same-binner', binner_t=bt)
         ctx.observe('same-binner:' + how)
     ctx.sig('synth', kind, size, n, nl, float(wn[0]))
